@@ -85,12 +85,19 @@ theorem InvC.modOut {g : Ghost} {s s' : KState ℚ σ} (hi : InvC g s)
     (hk : ∀ e, (s'.ev e).kind = (s.ev e).kind) (hc : ∀ e, (s'.ev e).cbs = (s.ev e).cbs)
     (hp : ∀ p, s'.proc? p = s.proc? p)
     (hmono : ∀ e, (s.ev e).out ≠ none → (s'.ev e).out ≠ none)
-    (hnew : ∀ e, (s.ev e).out = none → (s'.ev e).out ≠ none → (s.ev e).kind ≠ .proc) : InvC g s' := by
+    (hnew : ∀ e, (s.ev e).out = none → (s'.ev e).out ≠ none →
+      (s.ev e).kind ≠ .proc ∨ (Unreg s e ∧ Cb.resume e ∉ g.rem ∧ g.run ≠ some e)) : InvC g s' := by
   have hcond : ∀ c, isCond s' c = isCond s c := fun c => isCond_congr (hk c)
-  have hkeep : ∀ p, (s.ev p).out = none → (s.ev p).kind = .proc → (s'.ev p).out = none := by
-    intro p h1 h2
+  have hkeep : ∀ p, (s.ev p).out = none → (s.ev p).kind = .proc →
+      ((∃ e L, (s.ev e).cbs = some L ∧ Cb.resume p ∈ L) ∨ Cb.resume p ∈ g.rem ∨ g.run = some p) → (s'.ev p).out = none := by
+    intro p h1 h2 h4
     by_contra h3
-    exact hnew p h1 h3 h2
+    rcases hnew p h1 h3 with h | ⟨hu, hr, hn⟩
+    · exact h h2
+    · rcases h4 with ⟨e, L, hL, hm⟩ | h4 | h4
+      · exact hu e L hL hm
+      · exact hr h4
+      · exact hn h4
   refine ⟨?_, ?_, ?_, ?_, ?_, ?_, ?_, ?_, ?_, ?_, hi.rem_intr, hi.rem_count⟩
   · rw [ha]; exact hi.ag_distinct
   · intro q hq; rw [ha] at hq; rw [hc]; exact ⟨hmono _ (hi.ag_live q hq).1, (hi.ag_live q hq).2⟩
@@ -98,12 +105,12 @@ theorem InvC.modOut {g : Ghost} {s s' : KState ℚ σ} (hi : InvC g s)
   · intro p pr hpp; rw [hp] at hpp; rw [hk]; exact hi.procs p pr hpp
   · intro e L p hL hm; rw [hc] at hL; rw [hk]
     obtain ⟨h1, ⟨pr, h2, h3⟩, h4, h5⟩ := hi.reg e L p hL hm
-    exact ⟨hkeep p h1 (hi.procs p pr h2), ⟨pr, by rw [hp]; exact h2, h3⟩, h4, h5⟩
+    exact ⟨hkeep p h1 (hi.procs p pr h2) (Or.inl ⟨e, L, hL, hm⟩), ⟨pr, by rw [hp]; exact h2, h3⟩, h4, h5⟩
   · intro e L iv hL hm; rw [hc] at hL; exact hi.intr e L iv hL hm
   · intro e L c hL hm; rw [hc] at hL; rw [hcond]; exact hi.check e L c hL hm
   · intro p hpp
     obtain ⟨h1, h2, h3⟩ := hi.pend p hpp
-    refine ⟨hkeep p h1 h2, by rw [hk]; exact h2, ?_⟩
+    refine ⟨hkeep p h1 h2 (Or.inr hpp), by rw [hk]; exact h2, ?_⟩
     intro e L hL; rw [hc] at hL; exact h3 e L hL
   · intro p hpp; rw [hsz, hk]; exact hi.pend_intr p hpp
   · intro c hcc; rw [hcond]; exact hi.rem_check c hcc
@@ -119,7 +126,7 @@ theorem InvC.setOut {g : Ghost} {s : KState ℚ σ} (hi : InvC g s) (e : EvId) (
   · intro e' h1 h2
     rw [out_setOut] at h2
     split at h2
-    · rename_i hc; rw [hc.1] at h1 ⊢; exact h h1
+    · rename_i hc; rw [hc.1] at h1 ⊢; exact Or.inl (h h1)
     · exact absurd h1 h2
 
 /-- `trigger` of an existing, untriggered event that is not a process -/
